@@ -114,6 +114,43 @@ def make_x0_fn():
     return Fn('linear_make_x0', 'src/linear.cpp', 'make_x0', flt='make_x0', types=types, calls=calls, members=members, ret='struct nv_x0')
 
 
+# ------------------------------------------------------------------------------------------------ composition: tune + callback
+# ml::tune("linear", samples, fit_params, spaces, callback) by the clauses C13 proves, at a ghost task; nv_a1 = samples; @CALL = the REAL
+# callback (lambda variable of linear_t::fit), used through its proved contract
+TUNE_BODY = r'''
+  __CPROVER_assert(nv_a1->id == NV_ID_FIT, "fit: tuning splits the samples given to fit()");
+  struct nv_mlresult r; r.trials = nv_nondet_int64_t(); r.folds = nv_nondet_int64_t(); r.optimum = nv_opt_trial;
+  __CPROVER_assume(1 <= r.trials && r.trials <= 1000000 && 1 <= r.folds && r.folds <= 1000 && 0 <= r.optimum && r.optimum < r.trials);
+  if (nv_nondet__Bool()) { nv_thrown = 1; return r; }      /* tune may throw (no parameter space, non-finite value: C13) */
+  /* the ghost task is one of the folds * trials tasks of the result (C13: slot lemmas) */
+  __CPROVER_assume(0 <= nv_t_trial && nv_t_trial < r.trials && 0 <= nv_t_fold && nv_t_fold < r.folds);
+  nv_t_trials = r.trials; nv_t_folds = r.folds;
+  /* C13: the callback runs once per task, with splits[fold] (C12: training / validation lists of the samples given to tune), row `trial`
+     of the parameter table (the one params(trial) reads) and the warm start of the closest earlier trial (or none) */
+  struct nv_indices train, valid; train.id = NV_ID_TRAIN; valid.id = NV_ID_VALID; train.n = nv_nondet_int64_t(); valid.n = nv_nondet_int64_t();
+  __CPROVER_assume(0 <= train.n && train.n <= 1000000000 && 0 <= valid.n && valid.n <= 1000000000);
+  struct nv_lt params = nv_lt_zero(); params.rows = nv_nondet_int64_t(); params.cols = 1; params.id = nv_params_id0 + (uint64_t)nv_t_trial;
+  struct nv_lany warm; warm.id = nv_nondet_uint64_t(); warm.w = nv_nondet_uint64_t(); warm.b = nv_nondet_uint64_t();
+  struct nv_cb_ret ret = @CALL(&train, &valid, params, &warm, &nv_t_logger);
+  __CPROVER_assume(nv_t_calls < 1000); nv_t_calls = nv_t_calls + 1;
+  /* C13: result.store(trial, fold, first, second, third): cells (trial, fold, train, .) <- first, (trial, fold, valid, .) <- second, extra(trial, fold) <- third */
+  nv_t_train = ret._0; nv_t_valid = ret._1; nv_t_w = ret._2.m_weights; nv_t_b = ret._2.m_bias;
+  nv_t_state = nv_lf_state; nv_t_ntrain = train.n; nv_t_nvalid = valid.n;
+  nv_t_min_after = nv_minimized; nv_t_up_after = nv_upscaled;
+  return r;
+'''
+
+
+def tuned_fns():
+    import hooks
+    import linear_spec as ls
+    kw = dict(ls.kw_(), self_struct='struct nv_linear', aggregates=['struct nv_cb_ret'])
+    kw['hooks'] = [hooks.lambda_stub_hook('tune', 'nv_tune_cb', ['linear_fit_callback'], TUNE_BODY, lead=[1], ret='struct nv_mlresult', lambda_rets=['struct nv_cb_ret'])] + kw['hooks']
+    g = ls.inner_fns()
+    return [Fn('linear_fit_tuned', ls.L, 'fit', flt='linear_t::fit', select=NPARAMS(4), ret='struct nv_mlresult', **kw),
+            ls.linear_fns()['callback'], g['inner'], g['evaluate']]
+
+
 def percentile_fn():
     VM = r'^nano::tensor1d_map_t$|^nano::tensor_t<nano::tensor_marray_storage_t, double, 1'
     return Fn('stats_percentile', 'src/machine/stats.cpp', 'percentile', flt='percentile', select=NPARAMS(2), ret='double', uf_float=False,
@@ -147,6 +184,8 @@ def targets(tier):
            Target('linear_make_x0', lambda: [make_x0_fn()], LP, enforce='linear_make_x0', enums=EN)]
     lin += [Target(f'{stem}_make_function', (lambda stem=stem, cls=cls: [make_function_fn(stem, cls)]), LP, enforce=f'{stem}_make_function', enums=EN)
             for stem, cls in MF_CLASSES]
+    lin.append(Target('linear_fit_tuned', tuned_fns, 'specs/C11/tuned.h', enforce='linear_fit_tuned', enums=EN,
+                      replace=['linear_fit_callback', 'linear_fit_inner', 'linear_evaluate']))
     lin.append(Target('stats_percentile', lambda: [percentile_fn()], 'specs/C11/stats.h', enforce='stats_percentile'))
     return lin + [Target('gmodel_do_predict', lambda: [gboost_predict_fn()], P, enforce='gmodel_do_predict'),
             Target('learner_predict3', lambda: [learner_fns()['p3']], P, enforce='learner_predict3'),
